@@ -106,14 +106,22 @@ def spec_value(spec, levels, cn, pos):
     return val, min(gl, gr), gl, gr
 
 
-def run_slice(path, fields, limit, serial, cn, pos, start=None):
+def run_slice(path, fields, limit, serial, cn, pos, start=None, cache=None):
+    """cache: reuse one Mandoline object for several slices (the object keeps normal and position)"""
     from amr_kitchen.mandoline.mandoline import Mandoline
     with alarm(180), quiet(), geom.tainted_empty(), pools.controlled(start=start):
-        m = Mandoline(path, fields=fields, limit_level=limit, serial=serial, verbose=0)
+        key = (path, tuple(fields), limit, serial)
+        if cache is not None and key in cache:
+            m = cache[key]
+        else:
+            m = Mandoline(path, fields=fields, limit_level=limit, serial=serial, verbose=0)
+            if cache is not None:
+                cache[key] = m
         return m.slice(normal=cn, pos=pos, fformat="return"), m
 
 
-def run_case(ctx, rep, spec, cn, posname, pos, fields, limit, serial, model, path=None, truth=None, start=None, batch=None):
+def run_case(ctx, rep, spec, cn, posname, pos, fields, limit, serial, model, path=None, truth=None, start=None, batch=None,
+             cache=None):
     if path is None:
         path = ctx.newdir("c07_")
         truth = plotgen.materialize(spec, path)
@@ -126,7 +134,9 @@ def run_case(ctx, rep, spec, cn, posname, pos, fields, limit, serial, model, pat
              nontrivial=(nlev >= 2 or not posname.startswith("L0:centre")))
     rep.count("pos:" + posname.split(":")[-1]); rep.count(f"normal:{cn}")
     try:
-        out, m = run_slice(path, fields, limit, serial, cn, pos, start)
+        if cache is not None:
+            rep.count("reused-mandoline-object")
+        out, m = run_slice(path, fields, limit, serial, cn, pos, start, cache)
     except ValueError as e:
         if pos is not None and (pos < g or pos > G):
             return        # refused, as required
@@ -236,6 +246,7 @@ def run(ctx, rep, model=True):
         names = list(dedup_names(spec["fields"]))
         nlev = len(spec["levels"])
         batch = [] if model else None
+        cache = {}
         for cn in range(3):
             plist = positions(spec, cn, ctx.rng)
             if ctx.quick and len(plist) > 26:
@@ -250,7 +261,8 @@ def run(ctx, rep, model=True):
                 limit = [None, None, nlev - 1, 0, None, max(nlev - 2, 0)][j % 6]
                 serial = j % 2 == 0
                 run_case(ctx, rep, spec, cn, nm, pos, fields, limit, serial, model, path, truth,
-                         start=[None, pools.order_reversed][j % 2], batch=batch)
+                         start=[None, pools.order_reversed][j % 2], batch=batch,
+                         cache=cache if (j % 3 != 0 and pos is not None) else None)
                 if len(rep.violations) >= 12:
                     flush_model(rep, batch)
                     return
